@@ -18,7 +18,8 @@ EXPLANATION = (
     "the set of reachable heights), and the run ends with exactly one population; (R3) evaluated-typestate: no "
     "component that reads objective values sees an unevaluated population; (R4) the DE mutation's population-format "
     "guard is evaluated over all (length mod size) classes and must reject exactly the malformed ones, and integer "
-    "bitwise-NOT does not occur in component code; (R5) K4: no dynamic-borrow conflict anywhere in crate code. NOT "
+    "bitwise-NOT does not occur in component code; (R5) K4: no dynamic-borrow conflict anywhere in crate code; (R6) the "
+    "recombination driver conserves the prescribed number of individuals for every parent count and pair outcome. NOT "
     "decided: termination and iteration counts for all seeds, population-size bounds, data-dependent errors.")
 ASSUMPTIONS = ["parameters accepted by the constructors are valid (constructor Err paths are not analysed)",
                "conditions do not touch the population stack"]
@@ -197,6 +198,7 @@ def run(ctx):
     ctx.guard("C16.R1", "template trees", lambda: r1_r2_r3(ctx, state))
     ctx.guard("C16.R4", "format guards", lambda: r4_format_guards(ctx))
     ctx.guard("C16.R5", "guard conflicts", lambda: r5_guards(ctx))
+    ctx.guard("C16.R6", "population size through recombination", lambda: r6_population_size(ctx))
 
 
 def analyse_templates(ctx):
@@ -342,3 +344,11 @@ def r5_guards(ctx):
     want_good = {f.key.split("::")[-1] for f in fx.all_fns if f.key.startswith("mahf_sa_fixtures::k4::good_")}
     ctx.check(want_bad <= found and len(want_bad) >= 5, "C16.R5", "fixtures", "k4-fires-on-bad", "K4 self-test: conflicts not detected in %s" % sorted(want_bad - found), detail=str(sorted(found)))
     ctx.check(not (want_good & found), "C16.R5", "fixtures", "k4-silent-on-good", "K4 self-test: false conflict in %s" % sorted(want_good & found))
+
+
+def r6_population_size(ctx):
+    """the population size a template prescribes survives the variation step: the recombination driver (shared by
+    every crossover in the GA/ES/CRO templates) yields, for every number of parents and pair outcome, exactly the
+    individuals its contract states (same rule body as C13.R5, owned here for the size clause of C16)"""
+    import c13
+    c13.r5_recombination_driver(ctx, rule="C16.R6")
